@@ -995,7 +995,107 @@ func checkPartialOverrides(p *core.Prog, r *core.Report, rule string) {
 			return ok && core.FieldOfAddr(fa) == delPref
 		}, 2)
 		r.Check(writes, rule, "PartialKV."+n, desc, "the override never writes DeletedPrefixes", p.Pos(fn.Pos()))
+		if !writes {
+			continue
+		}
+		// every deleted prefix is recorded unless that exact prefix (or a covering one) already is
+		pr := &prefixRec{p: p, delPref: delPref, seen: p.Field(pkgStore, "PartialKV", "seen")}
+		complete := "each prefix deleted through PartialKV." + n + " is appended to DeletedPrefixes on every path, except when that exact prefix was already recorded (seen) or is covered by a recorded one (strings.HasPrefix(new, recorded))"
+		if len(fn.Params) >= 3 && isStringType(fn.Params[2].Type()) {
+			// DeletePrefix(ord, prefix)
+			prm := fn.Params[2]
+			ok, hit := pr.records(fn, nil, func(v ssa.Value) bool { return v == ssa.Value(prm) }, nil, 2)
+			d := ""
+			if !ok {
+				d = "a return is reachable without recording the prefix: " + p.Pos(core.InstrPos(hit))
+			}
+			r.Check(ok, rule, "PartialKV."+n+"/complete", complete, d, p.Pos(fn.Pos()))
+			continue
+		}
+		// replay form: a loop over decoded operations; for every operation of kind DELETE_PREFIX its Key is recorded
+		opT := p.Named(pkgPBInt, "Operation")
+		keyF, typeF := core.FieldOf(opT, "Key"), core.FieldOf(opT, "Type")
+		delConst := ""
+		for _, c := range core.EnumConsts(p.Named(pkgPBInt, "Operation_Type")) {
+			if c.Name() == "Operation_DELETE_PREFIX" {
+				delConst = c.Val().ExactString()
+			}
+		}
+		found := false
+		okAll := true
+		detail := ""
+		core.Instrs(fn, func(in ssa.Instruction) {
+			ifi, isIf := in.(*ssa.If)
+			if !isIf {
+				return
+			}
+			isType := func(v ssa.Value) bool { f, _ := core.LoadedField(v); return f == typeF }
+			isDel := func(v ssa.Value) bool {
+				k, ok := v.(*ssa.Const)
+				return ok && k.Value != nil && k.Value.ExactString() == delConst
+			}
+			onT, onF, okc := core.CondRelation(ifi.Cond, isType, isDel)
+			if !okc {
+				return
+			}
+			var start *ssa.BasicBlock
+			if onT == core.OrdEQ {
+				start = ifi.Block().Succs[0]
+			} else if onF == core.OrdEQ {
+				start = ifi.Block().Succs[1]
+			} else {
+				return
+			}
+			found = true
+			// the operation whose type was tested
+			var opVal ssa.Value
+			if bo, ok := ifi.Cond.(*ssa.BinOp); ok {
+				_, opVal = core.LoadedField(bo.X)
+			}
+			isKey := func(v ssa.Value) bool {
+				f, base := core.LoadedField(v)
+				return f == keyF && (opVal == nil || base == opVal)
+			}
+			// per iteration: stop at the loop header
+			var header ssa.Instruction
+			for _, l := range core.Loops(fn) {
+				if l.Body[ifi.Block()] {
+					header = l.Header.Instrs[0]
+				}
+			}
+			stop := func(x ssa.Instruction) bool { return header != nil && x == header }
+			first := start.Instrs[0]
+			// `first` itself may be the record
+			if ok2, hit := pr.recordsFromBlock(fn, first, isKey, stop); !ok2 {
+				okAll = false
+				detail = "the next operation / return is reachable without recording the deleted prefix: " + p.Pos(core.InstrPos(hit))
+			}
+		})
+		if !found {
+			okAll = false
+			detail = "no test of the operation kind against DELETE_PREFIX found"
+		}
+		r.Check(okAll, rule, "PartialKV."+n+"/complete", complete, detail, p.Pos(fn.Pos()))
+		// and the replay itself is delegated to the base implementation
+		base := p.FuncObj(pkgStore, "baseStore."+n)
+		hit, okDel := core.MustReachAfter(fn, nil, core.IsCallTo(base), func(x ssa.Instruction) bool { return core.ReturnsNilError(x) })
+		d := ""
+		if !okDel {
+			d = "success return without calling baseStore." + n + ": " + p.Pos(core.InstrPos(hit))
+		}
+		r.Check(okDel, rule, "PartialKV."+n+"/delegates", "the override still performs the base operation on every success path", d, p.Pos(fn.Pos()))
 	}
+	// DeletePrefix override delegates too
+	if dp := p.Func(pkgStore, "PartialKV.DeletePrefix"); dp != nil {
+		base := p.FuncObj(pkgStore, "baseStore.DeletePrefix")
+		_, okDel := core.MustReachAfter(dp, nil, core.IsCallTo(base), nil)
+		r.Check(okDel, rule, "PartialKV.DeletePrefix/delegates", "the override still records the DELETE_PREFIX operation through baseStore.DeletePrefix on every path", "a return is reachable without the base call", p.Pos(dp.Pos()))
+	}
+}
+
+func isStringType(t types.Type) bool {
+	b, ok := t.Underlying().(*types.Basic)
+	return ok && b.Info()&types.IsString != 0
 }
 
 // checkSaveLoadSymmetry (C02.R6 / C10.R2).
